@@ -44,6 +44,23 @@ theorem c10_detect_minimal (s : Bits) (max : Nat) (k : LabelKind) (hk : kindAdmi
   rw [c10_label_kind]
   exact (c10_label_minimal s.length max (allSame s) k hk).2
 
+
+/-- CANONICAL.  Whenever `HashMap.serialize()` returns a cell `c` for a map `d` built by `set_int_key` (distinct keys < 2^n),
+`c` is a spec-valid `Hashmap n X` in which EVERY label uses the reference constructor (`Canonical` = `ValidHMK refPolicy`), whose
+leaves `kv` are, in strictly ascending key order, exactly the entries of the map (key = the n-bit big-endian string of the int key,
+value = what the value serialiser wrote).  Labels are maximal common prefixes because both sides of every fork hold a leaf. -/
+theorem c10_canonical {V : Type} (n : Nat) (hn : 0 < n) (ser : V → Option Val) (d : Dict V) (c : Cell)
+    (hd : DictOK n d) (h : serialize n ser d = some (some c)) :
+    ∃ kv : List (Bits × Val), Canonical n c kv ∧ ValidHashmap n c kv ∧
+      kv.Pairwise (fun a b => natOfBits a.1 < natOfBits b.1) ∧ (∀ p ∈ kv, p.1.length = n) ∧
+      ∀ kb val, (kb, val) ∈ kv ↔ ∃ k v, (k, v) ∈ d ∧ kb = keyBits n k ∧ ser v = some val := by
+  obtain ⟨kv, hc, h1, h2, h3⟩ := serialize_canonical n hn ser d c hd h
+  exact ⟨kv, hc, valid_mono (fun _ _ _ _ => trivial) hc, h1, h2, h3⟩
+
+/-- maps produced by `set_int_key` calls satisfy the hypothesis of `c10_canonical` -/
+theorem c10_canonical_hyp {V : Type} (n : Nat) (ins : List (Int × V)) (d : Dict V) (h : setAll n ins [] = some d) : DictOK n d :=
+  setAll_ok n ins [] d ⟨by simp, by simp⟩ h
+
 /-- PARSE ANY VALID TREE (plain): if `c` is a spec-valid `Hashmap n X` — every label in ANY of the constructors
 short/long/same that can express it, edges possibly replaced by pruned branches when `p = true` — whose non-pruned leaves
 are `kv`, then `parse_hashmap(c.begin_parse(), n)` returns exactly `kv` (same keys, same value slices, same order). -/
